@@ -25,6 +25,7 @@ from typing import Tuple
 
 from .consteval import ExtRef
 from .consteval import Folder
+from .consteval import FuncRef
 from .consteval import Instance
 from .consteval import NotConst
 from .consteval import RegexConst
@@ -39,7 +40,7 @@ _PURE_FUNCS: Dict[str, Callable[..., Any]] = {
     "enumerate": lambda *a: list(enumerate(*a)), "zip": lambda *a: list(zip(*a)), "range": lambda *a: list(range(*a)),
     "list": list, "tuple": tuple, "reversed": lambda a: list(reversed(a)), "min": min, "max": max, "sum": sum, "slice": slice,
 }
-_PLAIN = (str, int, float, bool, type(None), tuple, list, dict, slice)
+_PLAIN = (str, int, float, bool, type(None), tuple, list, dict, slice, bytes)
 _PLAIN_CLASSES = {
     "str": (str,), "int": (int,), "float": (float,), "bool": (bool,), "list": (list,), "tuple": (tuple,), "dict": (dict,),
     "Sequence": (str, list, tuple), "MutableSequence": (list,), "Mapping": (dict,), "MutableMapping": (dict,),
@@ -87,6 +88,44 @@ class _PathRaises(Exception):
     argument is the name of the exception class."""
 
 
+@dataclass(frozen=True)
+class Callable_:
+    """A callable the path holds as a value (`decoders = [str, unquote, cls._unicode_escape]`, a lambda): `kind` is
+    "builtin" (a pure builtin by name), "ext" (a pure function of the standard library by dotted name), "lambda"
+    (node + the environment it closes over) or "bound" (a method of a model object)."""
+
+    kind: str
+    name: str = ""
+    node: Any = None
+    env: Any = None
+    obj: Any = None
+
+
+_PURE_EXT: Dict[str, Callable[..., Any]] = {}
+
+
+def _pure_ext() -> Dict[str, Callable[..., Any]]:
+    if not _PURE_EXT:
+        import urllib.parse as _up
+
+        _PURE_EXT.update({"urllib.parse.unquote": _up.unquote, "urllib.parse.quote": _up.quote})
+    return _PURE_EXT
+
+
+def _foldable(v: Any, depth: int = 0) -> bool:
+    """May the constant folder see this value?  Not the unknown value, a partly known text, a model object or a
+    callable - nor a container that holds one (the folder would take it for an ordinary Python object)."""
+    if v is UNKNOWN or isinstance(v, (Text, AbstractObject, Callable_)):
+        return False
+    if depth > 6:  # noqa: PLR2004
+        return False
+    if isinstance(v, (tuple, list, set, frozenset)):
+        return all(_foldable(x, depth + 1) for x in v)
+    if isinstance(v, dict):
+        return all(_foldable(k, depth + 1) and _foldable(x, depth + 1) for k, x in v.items())
+    return True
+
+
 class AbstractObject:
     """An object of the analysed program that a rule models: the explorer reads its attributes, stores into
     them, formats it and tests its class through these methods (each may return UNKNOWN)."""
@@ -127,6 +166,7 @@ class Explorer:
         self.raised: List[str] = []  # ... and the classes of those exceptions
         self.enter_with = enter_with
         self.split_conditionals = False  # fork a path at an undecided conditional expression inside a value
+        self.call_function: Optional[Callable[[FuncInfo, List[Any]], Any]] = None  # runs a package function abstractly (rules/model.py)
         self.outcomes: List[Outcome] = []
         self.envs: List[Dict[str, Any]] = []  # environment of each outcome, same order
 
@@ -142,6 +182,25 @@ class Explorer:
             return env[e.id]
         if isinstance(e, ast.Await):
             return self.value(e.value, env)
+        if self.enter_with and isinstance(e, ast.Name) and isinstance(e.ctx, ast.Load) and e.id in _PURE_FUNCS:
+            try:
+                gb = self.folder.global_value(self.fn.module, e.id)
+                shadowed = not (isinstance(gb, ExtRef) and str(gb.name) in (e.id, "builtins." + e.id))
+            except Exception:  # noqa: BLE001
+                shadowed = False
+            if not shadowed:
+                return Callable_("builtin", e.id)  # the builtin itself, held as a value
+        if self.enter_with and isinstance(e, ast.Name) and isinstance(e.ctx, ast.Load):
+            try:
+                gx = self.folder.global_value(self.fn.module, e.id)
+            except Exception:  # noqa: BLE001
+                gx = None
+            if isinstance(gx, ExtRef) and str(gx.name) in _pure_ext():
+                return Callable_("ext", str(gx.name))
+        if self.enter_with and isinstance(e, ast.Lambda):
+            la_ = e.args
+            if not (la_.vararg or la_.kwarg or la_.kwonlyargs or la_.defaults or la_.posonlyargs):
+                return Callable_("lambda", node=e, env=dict(env))
         if isinstance(e, (ast.Tuple, ast.List)) and isinstance(e.ctx, ast.Load) and (
                 self.enter_with or (not any(isinstance(x, ast.Starred) for x in e.elts) and any(isinstance(n, (ast.Attribute, ast.Call)) for n in ast.walk(e)))):
             # a display whose items involve objects: item by item (a starred item of known length is spliced in)
@@ -258,6 +317,38 @@ class Explorer:
             r = self._comprehension(e, env)
             if r is not None:
                 return r
+        if (isinstance(e, ast.Call) and self.enter_with and isinstance(e.func, ast.Attribute) and isinstance(e.func.value, (ast.IfExp, ast.Call))
+                and not (isinstance(e.func.value, ast.Call) and isinstance(e.func.value.func, ast.Name) and e.func.value.func.id == "super")):
+            # `(A if c else B).method(...)`, `Class(...).method(...)`: the receiver is evaluated once, first, and
+            # the call is then a method call on that value
+            rx = e.func.value
+            recv_v: Any = UNKNOWN
+            if isinstance(rx, ast.IfExp):
+                c_rx = self.test(rx.test, env)
+                if c_rx is not None:
+                    recv_v = self.value(rx.body if c_rx else rx.orelse, env)
+            else:
+                recv_v = self.value(rx, env)
+            if isinstance(recv_v, AbstractObject) or (isinstance(recv_v, _PLAIN) and not isinstance(recv_v, Text) and recv_v is not None and isinstance(rx, ast.Call)):
+                env = dict(env)
+                env["$recv"] = recv_v
+                e = ast.copy_location(ast.Call(func=ast.copy_location(ast.Attribute(value=ast.copy_location(ast.Name(id="$recv", ctx=ast.Load()), e), attr=e.func.attr,
+                                                                                       ctx=ast.Load()), e), args=e.args, keywords=e.keywords), e)
+
+        if (isinstance(e, ast.Call) and self.enter_with and not e.keywords and len(e.args) == 3 and not any(isinstance(a_, ast.Starred) for a_ in e.args)  # noqa: PLR2004
+                and ((isinstance(e.func, ast.Name) and e.func.id == "reduce" and "reduce" not in env)
+                     or (isinstance(e.func, ast.Attribute) and e.func.attr == "reduce" and isinstance(e.func.value, ast.Name) and e.func.value.id == "functools"))):
+            # functools.reduce with a callable and a sequence the path knows: folded step by step
+            f_, seq_, acc_ = (self.value(a_, env) for a_ in e.args)
+            if isinstance(f_, Callable_) and isinstance(seq_, (list, tuple)) and len(seq_) <= 16:  # noqa: PLR2004
+                for item_ in seq_:
+                    acc_ = self.apply(f_, [acc_, item_], e)
+                    if acc_ is UNKNOWN:
+                        return UNKNOWN
+                return acc_
+        if isinstance(e, ast.Call) and self.enter_with and isinstance(e.func, ast.Name) and isinstance(env.get(e.func.id), Callable_) and not e.keywords and not any(
+                isinstance(a_, ast.Starred) for a_ in e.args):
+            return self.apply(env[e.func.id], [self.value(a_, env) for a_ in e.args], e)
         if isinstance(e, ast.Call):
             args = [self.value(a, env) for a in e.args]
             if self.on_call is not None:
@@ -310,6 +401,40 @@ class Explorer:
                     raise _PathRaises("re.error") from err
                 except (TypeError, ValueError, OverflowError) as err:
                     raise _PathRaises(type(err).__name__) from err
+            if (self.enter_with and isinstance(e.func, ast.Attribute) and isinstance(e.func.value, ast.Name) and e.func.value.id == "json" and "json" not in env
+                    and e.func.attr in ("dumps", "loads") and len(args) == 1 and isinstance(args[0], _PLAIN) and not isinstance(args[0], Text)):
+                # the standard library's JSON codec on a value the path knows (keyword arguments: constants)
+                try:
+                    gj = self.folder.global_value(self.fn.module, "json")
+                except Exception:  # noqa: BLE001
+                    gj = None
+                kws_j = {k.arg: self.value(k.value, env) for k in e.keywords if k.arg}
+                if (isinstance(gj, ExtRef) and str(gj.name) == "json" and all(k.arg for k in e.keywords)
+                        and all(isinstance(v, (bool, int, str, type(None), tuple)) for v in kws_j.values())):
+                    import json as _json
+
+                    try:
+                        return getattr(_json, e.func.attr)(args[0], **kws_j)
+                    except _json.JSONDecodeError as err:
+                        raise _PathRaises("json.JSONDecodeError") from err
+                    except (TypeError, ValueError) as err:
+                        raise _PathRaises(type(err).__name__) from err
+            if (self.enter_with and isinstance(e.func, ast.Attribute) and isinstance(e.func.value, ast.Name) and e.func.value.id == "codecs" and "codecs" not in env
+                    and e.func.attr in ("decode", "encode") and 1 <= len(args) <= 3 and not e.keywords  # noqa: PLR2004
+                    and isinstance(args[0], (str, bytes)) and not isinstance(args[0], Text) and all(isinstance(a, str) and not isinstance(a, Text) for a in args[1:])):
+                try:
+                    gc = self.folder.global_value(self.fn.module, "codecs")
+                except Exception:  # noqa: BLE001
+                    gc = None
+                if isinstance(gc, ExtRef) and str(gc.name) == "codecs":
+                    import codecs as _codecs
+
+                    try:
+                        return getattr(_codecs, e.func.attr)(*args)
+                    except (UnicodeDecodeError, UnicodeEncodeError) as err:
+                        raise _PathRaises(type(err).__name__) from err
+                    except (TypeError, ValueError, LookupError) as err:
+                        raise _PathRaises(type(err).__name__) from err
             if isinstance(e.func, ast.Name) and e.func.id == "getitem" and e.func.id not in env and len(args) == 2 and not e.keywords:  # noqa: PLR2004
                 # operator.getitem on a container and a key the path knows; a missing key / index ends the path
                 try:
@@ -336,6 +461,33 @@ class Explorer:
                         return getattr(_re.compile(recv.pattern, recv.flags), e.func.attr)(args[0])
                     except _re.error:
                         return UNKNOWN
+                if type(recv).__name__ == "Match" and type(recv).__module__ == "re" and e.func.attr in ("group", "start", "end", "span", "groups", "groupdict") and plain:
+                    # a real match object (of a constant pattern on a text the path knows)
+                    try:
+                        return getattr(recv, e.func.attr)(*args)
+                    except (IndexError, TypeError) as err:
+                        raise _PathRaises(type(err).__name__) from err
+                if (isinstance(recv, RegexConst) and e.func.attr == "sub" and self.enter_with and 2 <= len(args) <= 3 and isinstance(args[1], str)  # noqa: PLR2004
+                        and not isinstance(args[1], Text) and (len(args) == 2 or isinstance(args[2], int))):  # noqa: PLR2004
+                    # `PATTERN.sub(repl, text)`: repl a text, or a function of the package run abstractly per match
+                    import re as _re3
+
+                    pat3 = _re3.compile(recv.pattern, recv.flags)
+                    repl = args[0]
+                    if isinstance(repl, str) and not isinstance(repl, Text):
+                        return pat3.sub(repl, args[1], *args[2:])
+                    if isinstance(repl, FuncRef) and self.call_function is not None:
+                        unknown = []
+
+                        def _cb(m, repl=repl):  # type: ignore[no-untyped-def]
+                            r = self.call_function(repl.func, [m])  # type: ignore[misc]
+                            if not isinstance(r, str) or isinstance(r, Text):
+                                unknown.append(m)
+                                return ""
+                            return r
+
+                        res3 = pat3.sub(_cb, args[1], *args[2:])
+                        return UNKNOWN if unknown else res3
                 if isinstance(recv, dict) and e.func.attr in ("items", "keys", "values") and not args:
                     return list(getattr(recv, e.func.attr)())
                 if isinstance(recv, slice) and e.func.attr == "indices" and len(args) == 1 and isinstance(args[0], int):
@@ -353,6 +505,18 @@ class Explorer:
                 if (isinstance(recv, str) and not isinstance(recv, Text) and e.func.attr == "join" and len(args) == 1 and isinstance(args[0], (list, tuple))
                         and all(isinstance(x, str) and not isinstance(x, Text) for x in args[0])):
                     return recv.join(args[0])
+                if (isinstance(recv, (str, bytes)) and not isinstance(recv, Text) and self.enter_with and e.func.attr == ("encode" if isinstance(recv, str) else "decode")
+                        and len(args) <= 2 and all(isinstance(a, str) and not isinstance(a, Text) for a in args)):  # noqa: PLR2004
+                    # text <-> bytes with a named codec
+                    try:
+                        return getattr(recv, e.func.attr)(*args)
+                    except (UnicodeDecodeError, UnicodeEncodeError) as err:
+                        raise _PathRaises(type(err).__name__) from err
+                    except (LookupError, TypeError) as err:
+                        raise _PathRaises(type(err).__name__) from err
+                if (isinstance(recv, str) and not isinstance(recv, Text) and e.func.attr == "translate" and len(args) == 1 and isinstance(args[0], dict)
+                        and all(isinstance(k, int) and (v is None or isinstance(v, (str, int))) for k, v in args[0].items())):
+                    return recv.translate(args[0])
                 if isinstance(recv, str) and not isinstance(recv, Text) and plain and e.func.attr in (
                         "startswith", "endswith", "strip", "lstrip", "rstrip", "lower", "upper", "replace", "split", "isdigit"):
                     try:
@@ -375,8 +539,8 @@ class Explorer:
 
             e = _Known().visit(_copy.deepcopy(e))
             ast.fix_missing_locations(e)
-        scope = Scope(self.folder, self.fn.module, self.fn.cls, {k: v for k, v in env.items() if v is not UNKNOWN and not isinstance(v, (Text, AbstractObject))})
-        if any(isinstance(n, ast.Name) and (env.get(n.id) is UNKNOWN or isinstance(env.get(n.id), (Text, AbstractObject))) for n in ast.walk(e)):
+        scope = Scope(self.folder, self.fn.module, self.fn.cls, {k: v for k, v in env.items() if _foldable(v)})
+        if any(isinstance(n, ast.Name) and n.id in env and not _foldable(env[n.id]) for n in ast.walk(e)):
             return UNKNOWN
         try:
             v = self.folder.eval(e, scope)
@@ -384,6 +548,56 @@ class Explorer:
             return UNKNOWN
         # a reference to something outside the package (or to an unbound `self`) is not a value
         return UNKNOWN if isinstance(v, ExtRef) else v
+
+    def apply(self, f: "Callable_", args: List[Any], at: ast.AST) -> Any:
+        """The value of calling a callable the path holds with values the path knows."""
+        if any(a is UNKNOWN or isinstance(a, Text) for a in args):
+            return UNKNOWN
+        if f.kind in ("builtin", "ext"):
+            fn_ = _PURE_FUNCS[f.name] if f.kind == "builtin" else _pure_ext()[f.name]
+            if not all(isinstance(a, _PLAIN) for a in args):
+                if f.kind == "builtin" and f.name == "str" and len(args) == 1 and isinstance(args[0], AbstractObject):
+                    return args[0].peval_str()
+                return UNKNOWN
+            try:
+                return fn_(*args)
+            except (TypeError, ValueError) as err:
+                raise _PathRaises(type(err).__name__) from err
+            except Exception:  # noqa: BLE001
+                return UNKNOWN
+        if f.kind == "lambda":
+            params = [a.arg for a in f.node.args.args]
+            if len(params) != len(args):
+                raise _PathRaises("TypeError")
+            inner = dict(f.env)
+            inner.update(zip(params, args))
+            return self.value(f.node.body, inner)
+        if f.kind == "def":
+            params = [a.arg for a in f.node.args.args]
+            if len(params) != len(args):
+                raise _PathRaises("TypeError")
+            inner = dict(f.env)
+            inner[f.name] = f
+            inner.update(zip(params, args))
+            saved = (self.outcomes, self.envs, self._loop_exits)
+            self.outcomes, self.envs, self._loop_exits = [], [], []
+            try:
+                falls = self.block(list(f.node.body), inner)
+                outs_d = [(k, v) for (k, _n, v), e_d in zip(self.outcomes, self.envs) if not e_d.get("$handlers")]
+            finally:
+                self.outcomes, self.envs, self._loop_exits = saved
+            results = [v for k, v in outs_d if k == "return"] + [None for _e in falls]
+            if not results and outs_d and all(k == "raise" for k, _v in outs_d):
+                raise _PathRaises("callee raises")
+            if len(results) == 1 and not any(k == "raise" for k, _v in outs_d):
+                return results[0]
+            return UNKNOWN
+        if f.kind == "bound" and hasattr(f.obj, "peval_call"):
+            r = f.obj.peval_call(f.name, list(args), {})
+            if type(r).__name__ == "_Raises":
+                raise _PathRaises("callee raises")
+            return r
+        return UNKNOWN
 
     def _comprehension(self, e: ast.expr, env: Dict[str, Any]) -> Any:
         """A comprehension over sequences the path knows, element by element (so that call hooks see the
@@ -471,6 +685,34 @@ class Explorer:
                 names = class_names(t.args[1])
                 if names is not None and all(n_ in _PLAIN_CLASSES for n_ in names):
                     return any(isinstance(subj, _PLAIN_CLASSES[n_]) for n_ in names)
+                if names is not None and self.enter_with:
+                    # a class of the package that derives from no builtin container / scalar has no plain instances
+                    verdicts: List[Optional[bool]] = []
+                    for n_ in names:
+                        if n_ in _PLAIN_CLASSES:
+                            verdicts.append(isinstance(subj, _PLAIN_CLASSES[n_]))
+                            continue
+                        try:
+                            gv_ = self.folder.global_value(self.fn.module, n_.split(".")[-1])
+                        except Exception:  # noqa: BLE001
+                            gv_ = None
+                        from .consteval import ClassRef as _ClassRef
+
+                        if isinstance(gv_, _ClassRef):
+                            try:
+                                mro_ = self.folder.repo.mro(gv_.cls)
+                            except Exception:  # noqa: BLE001
+                                mro_ = None
+                            builtin_bases = {"str", "int", "float", "list", "tuple", "dict", "bytes", "bool", "Mapping", "Sequence", "MutableMapping",
+                                             "MutableSequence", "UserDict", "UserList", "UserString"}
+                            if mro_ is not None and not any(str(b).split(".")[-1] in builtin_bases for b in mro_):
+                                verdicts.append(False)
+                                continue
+                        verdicts.append(None)
+                    if any(v_ is True for v_ in verdicts):
+                        return True
+                    if all(v_ is False for v_ in verdicts):
+                        return False
         if (isinstance(t, ast.Call) and isinstance(t.func, ast.Name) and t.func.id == "hasattr" and len(t.args) == 2  # noqa: PLR2004
                 and isinstance(t.args[1], ast.Constant) and isinstance(t.args[1].value, str)):
             subj2 = self.value(t.args[0], env)
@@ -480,14 +722,22 @@ class Explorer:
             v = self.test(t.operand, env)
             return None if v is None else not v
         if isinstance(t, ast.BoolOp):
-            vals = [self.test(v, env) for v in t.values]
-            if isinstance(t.op, ast.And):
-                if any(v is False for v in vals):
-                    return False
-                return True if all(v is True for v in vals) else None
-            if any(v is True for v in vals):
-                return True
-            return False if all(v is False for v in vals) else None
+            # left to right, stopping where Python stops; once an operand is undecided the later ones may or may
+            # not be evaluated, so an exception one of them would certainly raise is not certain any more
+            is_and = isinstance(t.op, ast.And)
+            undecided = False
+            for operand in t.values:
+                try:
+                    v = self.test(operand, env)
+                except _PathRaises:
+                    if not undecided:
+                        raise
+                    v = None
+                if v is (not is_and):
+                    return not is_and
+                if v is None:
+                    undecided = True
+            return None if undecided else is_and
         if isinstance(t, ast.IfExp):
             c = self.test(t.test, env)
             if c is True:
@@ -517,6 +767,18 @@ class Explorer:
                 if not plain_a and not plain_b and type(a2) is type(b2):
                     same = a2 is b2 or a2 == b2
                     return same == isinstance(t.ops[0], ast.Is)
+        if isinstance(t, ast.Compare) and len(t.ops) > 1 and self.enter_with:
+            # `a <= x <= b`: the conjunction of the links, left to right, each operand evaluated once
+            vals_c = [self.value(x, env) for x in [t.left] + list(t.comparators)]
+            if any(x is UNKNOWN or isinstance(x, Text) for x in vals_c):
+                return None
+            try:
+                for op_, a_c, b_c in zip(t.ops, vals_c, vals_c[1:]):
+                    if not bool(self.folder._cmp(op_, a_c, b_c)):
+                        return False
+                return True
+            except Exception:  # noqa: BLE001
+                return None
         if isinstance(t, ast.Compare) and len(t.ops) == 1:
             a, b = self.value(t.left, env), self.value(t.comparators[0], env)
             if a is UNKNOWN or b is UNKNOWN or isinstance(a, Text) or isinstance(b, Text):
@@ -547,6 +809,17 @@ class Explorer:
             for x, xv in zip(t.elts, v):
                 self._bind(x, xv, env)
             return
+        if (isinstance(t, (ast.Tuple, ast.List)) and isinstance(v, (tuple, list)) and sum(isinstance(x, ast.Starred) for x in t.elts) == 1
+                and len(v) >= len(t.elts) - 1):
+            # `first, *rest = seq`
+            k_star = next(i for i, x in enumerate(t.elts) if isinstance(x, ast.Starred))
+            after = len(t.elts) - k_star - 1
+            for x, xv in zip(t.elts[:k_star], v[:k_star]):
+                self._bind(x, xv, env)
+            self._bind(t.elts[k_star].value, list(v[k_star:len(v) - after]), env)  # type: ignore[attr-defined]
+            for x, xv in zip(t.elts[k_star + 1:], v[len(v) - after:] if after else []):
+                self._bind(x, xv, env)
+            return
         if isinstance(t, ast.Subscript) and isinstance(t.value, ast.Name) and isinstance(env.get(t.value.id), dict):
             # a store into a dictionary the path built itself: known key -> updated copy, else unknown
             k = self.value(t.slice, env)
@@ -554,6 +827,20 @@ class Explorer:
                 d = dict(env[t.value.id])
                 d[k] = v
                 env[t.value.id] = d
+            else:
+                env[t.value.id] = UNKNOWN
+            return
+        if (isinstance(t, ast.Subscript) and isinstance(t.value, ast.Name) and isinstance(env.get(t.value.id), list) and self.enter_with
+                and not isinstance(env.get(t.value.id), AbstractObject) and not isinstance(t.slice, ast.Slice)):
+            # a store into a list the path built itself, at a known position: an updated copy
+            k2 = self.value(t.slice, env)
+            lst = env[t.value.id]
+            if isinstance(k2, int) and not isinstance(k2, bool):
+                if not -len(lst) <= k2 < len(lst):
+                    raise _PathRaises("IndexError")
+                new_l = list(lst)
+                new_l[k2] = v
+                env[t.value.id] = new_l
             else:
                 env[t.value.id] = UNKNOWN
             return
@@ -670,6 +957,16 @@ class Explorer:
             return [env]
         if isinstance(s, ast.AugAssign):
             env = dict(env)
+            if (isinstance(s.target, ast.Name) and self.enter_with and isinstance(env.get(s.target.id), (int, float)) and not isinstance(env.get(s.target.id), bool)
+                    and isinstance(s.op, (ast.Add, ast.Sub, ast.Mult, ast.FloorDiv, ast.Mod))):
+                # arithmetic on a number the path knows
+                rhs = self.value(s.value, env)
+                if isinstance(rhs, (int, float)) and not isinstance(rhs, bool):
+                    env[s.target.id] = self.value(ast.copy_location(ast.BinOp(left=ast.copy_location(ast.Name(id=s.target.id, ctx=ast.Load()), s), op=s.op,
+                                                                                right=ast.copy_location(ast.Constant(value=rhs), s)), s), env)
+                else:
+                    env[s.target.id] = UNKNOWN
+                return [env]
             if isinstance(s.target, ast.Name):
                 if isinstance(s.op, ast.Add):
                     cur, add = as_text(env.get(s.target.id)), as_text(self.value(s.value, env))
@@ -694,6 +991,13 @@ class Explorer:
             if t is not True:
                 out.extend(self.block(s.orelse, dict(env)))
             return out
+        if isinstance(s, ast.FunctionDef) and self.enter_with:
+            a_d = s.args
+            if not (a_d.vararg or a_d.kwarg or a_d.kwonlyargs or a_d.defaults or a_d.posonlyargs or s.decorator_list) and not any(
+                    isinstance(n, (ast.Yield, ast.YieldFrom)) for n in ast.walk(s)):
+                env = dict(env)
+                env[s.name] = Callable_("def", s.name, node=s, env=env)  # a local helper, held as a value
+                return [env]
         if isinstance(s, (ast.Pass, ast.Import, ast.ImportFrom, ast.Global, ast.Nonlocal, ast.Assert, ast.FunctionDef, ast.AsyncFunctionDef)):
             return [env]
         if isinstance(s, ast.Try) and not s.finalbody:
@@ -718,6 +1022,38 @@ class Explorer:
                 eh["$handlers"] = tuple(eh.get("$handlers", ())) + (h,)
                 out2.extend(self.block(h.body, eh))
             return out2
+        if isinstance(s, ast.While) and self.enter_loops and self.enter_with and not s.orelse:
+            # a `while` whose test the path decides each time round (a parser walking a token stream the rule
+            # supplied): executed as it runs, a bounded number of times; an undecided test leaves it unfollowed
+            live_w = [env]
+            done_w: List[Dict[str, Any]] = []
+            followed = True
+            for _round in range(65):
+                nxt_w: List[Dict[str, Any]] = []
+                for e0 in live_w:
+                    t_w = self.test(s.test, e0)
+                    if t_w is None:
+                        followed = False
+                        break
+                    if t_w is False:
+                        done_w.append(e0)
+                        continue
+                    self._loop_exits.append([])
+                    after_w = self.block(s.body, dict(e0))
+                    for e1 in self._loop_exits.pop():
+                        (done_w if e1.get("$jump") == "break" else nxt_w).append({k: v for k, v in e1.items() if k != "$jump"})
+                    nxt_w.extend(after_w)
+                if not followed:
+                    break
+                live_w = nxt_w
+                if not live_w:
+                    return done_w
+                if len(live_w) + len(done_w) > self.max_paths:
+                    raise AnalysisError(f"partial evaluation of {self.fn.qualname}: too many paths")
+            if followed:
+                raise AnalysisError(f"partial evaluation of {self.fn.qualname}: a `while` loop does not end within 64 rounds")
+            if _round > 0:
+                raise AnalysisError(f"partial evaluation of {self.fn.qualname}: the test of a `while` loop is decided at first and then not")
         if isinstance(s, (ast.For, ast.AsyncFor)) and self.enter_loops and (isinstance(s, ast.For) or self.enter_with):
             seq = self.value(s.iter, env)
             if not isinstance(seq, (tuple, list)) and s.orelse:
